@@ -23,7 +23,7 @@ int g_url; size_t g_blk, g_len; uint8_t g_b0, g_b1, g_b2, g_c0, g_c1, g_c2, g_c3
 
 /* ---- loop bodies / tail branches against their loop-free contracts ---- */
 #define H_ENC_PIECE(name) void h_##name(void) { \
-  vstr* ret; const uint8_t* data; size_t in_off, in_len, in_rsize; uint8_t in_s0, in_s1, in_s2; unsigned in_alpha; \
+  vstr* ret; const C11_ENC_T* data; size_t in_off, in_len, in_rsize; uint8_t in_s0, in_s1, in_s2; unsigned in_alpha; \
   g_len = in_len; g_s0 = in_s0; g_s1 = in_s1; g_s2 = in_s2; g_url = URL; \
   const char* alpha = ALPHA_PTR; \
   name(ret, data, in_off, alpha ? alpha : DEFAULT_ALPHABET); \
@@ -31,7 +31,7 @@ int g_url; size_t g_blk, g_len; uint8_t g_b0, g_b1, g_b2, g_c0, g_c1, g_c2, g_c3
 H_ENC_PIECE(base64_encode_block) H_ENC_PIECE(base64_encode_tail2) H_ENC_PIECE(base64_encode_tail1)
 
 void h_base64_decode_block(void) {
-  vstr* ret; const uint8_t* data; const char* table; size_t in_off, in_end, in_len; uint8_t in_s0, in_s1, in_s2, in_s3; unsigned in_alpha;
+  vstr* ret; const C11_DEC_T* data; const char* table; size_t in_off, in_end, in_len; uint8_t in_s0, in_s1, in_s2, in_s3; unsigned in_alpha;
   g_len = in_len; g_s0 = in_s0; g_s1 = in_s1; g_s2 = in_s2; g_s3 = in_s3; g_url = URL;
   base64_decode_block(ret, data, in_off, in_end, table);
   VERIF_REACH();
